@@ -16,3 +16,6 @@ def check(ctx: Ctx) -> None:
     CT.r_fresh_conversion(ctx, "R18.7")
     # "concurrent sessions do not see each other": nothing of one connection is kept where the next connection overwrites it
     CT.r_session_local(ctx, "R18.8")
+    # "a command that waits is answered when the wait is over" - and the other sessions meanwhile: no lock shared between sessions is held across an await
+    from .c19 import r_no_shared_lock
+    r_no_shared_lock(ctx, "R18.9")
